@@ -482,9 +482,34 @@ def check_split_axes_sorted(prog, rep):
                                        'order_dependent_uses': uses_rev})
     if not binds:
         raise AnalysisError('split_legs: bindings of `axes` not found')
+    def filled_ascending(name):
+        """`name = []` filled only by `name.append(i)` with i the index variable of an
+        enumerate / range loop: ascending by construction"""
+        apps = [c for c in body_nodes(f) if isinstance(c, ast.Call) and isinstance(
+            c.func, ast.Attribute) and unparse(c.func.value) == name and
+            c.func.attr in ('append', 'extend', 'insert')]
+        if not apps:
+            return False
+        for c in apps:
+            if c.func.attr != 'append' or len(c.args) != 1 or not isinstance(c.args[0], ast.Name):
+                return False
+            lp = c
+            ok = False
+            while lp is not None and lp is not f:
+                lp = parent(lp)
+                if isinstance(lp, ast.For) and isinstance(lp.iter, ast.Call) and \
+                        call_name(lp.iter) in ('enumerate', 'range'):
+                    idx = lp.target.elts[0] if isinstance(lp.target, ast.Tuple) and \
+                        call_name(lp.iter) == 'enumerate' else lp.target
+                    ok = isinstance(idx, ast.Name) and idx.id == c.args[0].id
+                    break
+            if not ok:
+                return False
+        return True
     for b in binds:
         v = b.value
         asc = bool(pmatch('sorted($$x)', v)) or (
+            isinstance(v, ast.List) and not v.elts and filled_ascending('axes')) or (
             isinstance(v, ast.ListComp) and isinstance(v.generators[0].iter, ast.Call) and
             call_name(v.generators[0].iter) in ('enumerate', 'range')) or any(
                 pmatch('axes.sort()', x) for x in body_nodes(f))
